@@ -64,12 +64,16 @@ func makePlan(tier string) plan {
 		return plan{maxOps: 3, fullOps: 3, execSmall: all, execLarge: all, otherSmall: all, otherLarge: all, apq: singles,
 			hist: product(acceptSingles[:4], []string{"nil", "ct-gr"}, orderAlphabet), histAllShapesLarge: true}
 	}
-	// quick: for executing carriers on documents with up to 2 operations every Accept value x every
-	// ResponseHeaders setting in the default order plus the single-value Accept headers in the
-	// reversed order; documents with 3 operations and non-executing carriers get smaller products
+	// quick: for executing carriers on documents with up to 2 operations, in the default order every
+	// Accept value x {no ResponseHeaders, custom header} plus the single-value Accept headers x the two
+	// configured Content-Types (a configured Content-Type overrides Accept), and the single-value
+	// Accept headers x every ResponseHeaders setting in the reversed order; documents with 3
+	// operations and non-executing carriers get smaller products
+	execSmall := product(acceptAlphabet(), []string{"nil", "custom"}, []string{"default"})
+	execSmall = append(execSmall, product(acceptSingles, []string{"ct-json", "ct-gr"}, []string{"default"})...)
+	execSmall = append(execSmall, product(acceptSingles, rhAlphabet, []string{"reversed"})...)
 	return plan{maxOps: 3, fullOps: 2,
-		execSmall: append(product(acceptAlphabet(), rhAlphabet, []string{"default"}),
-			product(acceptSingles, rhAlphabet, []string{"reversed"})...),
+		execSmall:  execSmall,
 		execLarge:  product(acceptSingles[:4], rhAlphabet, []string{"default"}),
 		otherSmall: singles,
 		otherLarge: product([]string{"", mtGR}, []string{"nil", "custom"}, []string{"default"}),
